@@ -74,6 +74,7 @@ func OpenFile(name string, flag int, perm os.FileMode) (*File, error) {
 		n.data = n.data[:0:0]
 	}
 	if writing {
+		n.touched = true
 		n.writers++
 		if n.writers > 1 {
 			f.w.Res.Counters["fs.concurrent-writers"]++
@@ -204,6 +205,7 @@ func Rename(oldpath, newpath string) error {
 		return err
 	}
 	delete(f.nodes, op)
+	n.touched = true
 	f.nodes[np] = n
 	f.record("rename", np, 0, nil)
 	return nil
